@@ -235,6 +235,10 @@ impl<A: AApi> Sut for ASut<A> {
         let al = A::val().1;
         (al - A::PW % al) % al
     }
+    fn alt_skew(&self) -> usize {
+        // both the prefix and the values must stay aligned: step by the larger of the two alignments
+        (self.skew() + A::val().1.max(A::PW)) % 16
+    }
     fn ops(&self, state: &[u8]) -> Vec<Op> {
         let d = adecode::<A>(state);
         let mut v = vec![];
